@@ -378,6 +378,10 @@ func (Spec) MakeInterest(name enc.Name, config *ndn.InterestConfig, appParam enc
 		// HopLimit is a one-octet element; converting to byte would encode another hop limit
 		return nil, ndn.ErrInvalidValue{Item: "Interest.HopLimit", Value: *config.HopLimit}
 	}
+	if config.Nonce != nil && *config.Nonce > 0xffffffff {
+		// Nonce is a four-octet element; converting to uint32 would encode another nonce
+		return nil, ndn.ErrInvalidValue{Item: "Interest.Nonce", Value: *config.Nonce}
+	}
 	forwardingHint := (*Links)(nil)
 	if config.ForwardingHint != nil {
 		forwardingHint = &Links{
